@@ -374,6 +374,65 @@ def gen_lowrank(rng, l, r, br, n, noise):
     return H + noise * np.abs(H).max() * rng.standard_normal(H.shape)
 
 
+def mode_block(w, xi):
+    """2x2 real block of the discrete pole exp(lam_c dt), lam_c dt = -xi w + i w sqrt(1 - xi^2)  (w = 2 pi f dt)."""
+    z = np.exp(complex(-xi * w, w * math.sqrt(1 - xi * xi)))
+    return np.array([[z.real, z.imag], [-z.imag, z.real]])
+
+
+def gen_special(rng, which, extra):
+    """EXACT low-rank Hankel product of a system with two distinct modes that share the natural frequency (different damping)
+    or share the damping ratio (different frequency); optionally a third, unrelated mode.  Returns (A, n)."""
+    w = rng.uniform(0.3, 2.2)
+    if which == "equal_fn":
+        modes = [(w, rng.uniform(0.003, 0.03)), (w, rng.uniform(0.08, 0.3))]
+    else:
+        xi = rng.uniform(0.005, 0.12)
+        modes = [(w, xi), (min(w * rng.uniform(1.15, 2.0), 2.9), xi)]
+    if rng.random() < 0.5:
+        modes = modes[::-1]
+    if extra:
+        modes.insert(int(rng.integers(0, 3)), (rng.uniform(0.2, 2.9), rng.uniform(0.01, 0.2)))
+    n = 2 * len(modes)
+    A = np.zeros((n, n))
+    for k, (wk, xk) in enumerate(modes):
+        A[2 * k:2 * k + 2, 2 * k:2 * k + 2] = mode_block(wk, xk)
+    return A, n
+
+
+def special_cases(ctx, count):
+    """Part P on inputs where distinct poles coincide in ONE modal quantity (frequency or damping) but are simple and well
+    separated as eigenvalues - legal under the property's guards."""
+    rng = ctx.np_rng
+    made = tries = 0
+    while made < count and tries < 60 * count:
+        tries += 1
+        which = "equal_fn" if made % 3 != 2 else "equal_xi"
+        l = int(rng.integers(1, 4))
+        refs = sorted(rng.choice(l, size=int(rng.integers(1, l + 1)), replace=False).tolist())
+        r = len(refs)
+        br = int(rng.integers(2, 6))
+        cap = min(br * l, (br + 1) * r)
+        if cap < 4:
+            continue
+        A, n = gen_special(rng, which, extra=(cap >= 6 and rng.random() < 0.4))
+        Cm = rng.standard_normal((l, n))
+        G = rng.standard_normal((n, r))
+        Ob = np.vstack([Cm @ np.linalg.matrix_power(A, i) for i in range(br + 1)])
+        Co = np.hstack([np.linalg.matrix_power(A, j) @ G for j in range(br + 1)])
+        H = Ob @ Co
+        sv = np.linalg.svd(H, compute_uv=False)
+        if sv[n - 1] < 1e-4 * sv[0] or min((sv[i] - sv[i + 1]) / sv[i] for i in range(n - 1)) < 10 * SV_GAP:
+            continue
+        w = np.linalg.eigvals(A)
+        if (np.abs(w[:, None] - w[None, :]) + np.eye(n) * 9).min() < 1.5 * EIG_SEP:
+            continue
+        nbc = int(rng.integers(1, 7))
+        T = rng.standard_normal((H.size, nbc)) * 10.0 ** rng.uniform(-4, -2) * np.abs(H).max()
+        made += 1
+        yield dict(kind="prop", src=which, br=br, ordmax=n, dt=float(rng.choice([0.01, 0.02, 0.05])), H=H.tolist(), T=T.tolist())
+
+
 def gen_data(rng, l, n, Ndat):
     A = gen_system(rng, n)
     Cm = rng.standard_normal((l, n))
@@ -470,12 +529,53 @@ def factor_cases(ctx, count):
         yield dict(kind="factor", br=br, nb=nb, Y=Y.tolist(), Yref=Yr.tolist(), refs=None if indep else refs)
 
 
+def fn_cov_equal(a, b):
+    """Two variance tables (orders >= 2) agree: same NaN pattern, relative 1e-5."""
+    a, b = np.asarray(a, float)[:, 2:], np.asarray(b, float)[:, 2:]
+    if a.shape != b.shape or not np.array_equal(np.isfinite(a), np.isfinite(b)):
+        return False
+    m = np.isfinite(a)
+    return bool(np.all(np.abs(a[m] - b[m]) <= 1e-5 * np.abs(a[m]) + 1e-12 * (np.abs(a[m]).max() if m.any() else 0.0)))
+
+
+def check_pipeline(ctx, case, fexprs, fmeta, do_prop):
+    """data -> build_hank(calc_unc) -> SSI_fast -> SSI_poles, optionally with the record in other units (gain 10^gain_k):
+    H and the factor scale by gain^2, frequencies and their variances are unit-free."""
+    Y = np.array(case["Y"], float)
+    Yr = Y[case["refs"], :]
+    br, nb = case["br"], case["nb"]
+    try:
+        H, T = ssi.build_hank(Y, Yr, br, "cov_mm", calc_unc=True, nb=nb)
+    except Exception as e:
+        ctx.fail("oracle", "build_hank(calc_unc=True) raised %s" % type(e).__name__, case, key="C17:factor:raises")
+        return
+    check_factor(ctx, dict(case, kind="factor"), Y, Yr, br, nb, fexprs, fmeta)
+    H, T = np.asarray(H), np.asarray(T)
+    out0 = do_prop(dict(case, H=H.tolist(), T=T.tolist(), src="pipeline"), chain=False)
+    k = case.get("gain_k", 0)
+    if not k:
+        return
+    g = 10.0 ** k
+    Hg, Tg = ssi.build_hank(g * Y, g * Yr, br, "cov_mm", calc_unc=True, nb=nb)
+    Hg, Tg = np.asarray(Hg), np.asarray(Tg)
+    if (not np.allclose(Hg, g * g * H, rtol=0, atol=1e-9 * g * g * max(np.abs(H).max(), 1e-300))
+            or not np.allclose(Tg, g * g * T, rtol=0, atol=1e-9 * g * g * max(np.abs(T).max(), np.abs(H).max() * 1e-9, 1e-300))):
+        ctx.fail("oracle", "record scaled by 10^%d: Hankel estimate / covariance factor do not scale by the gain squared "
+                 "(the factor is made of deviations of block estimates: homogeneous of degree 2 in the data)" % k, case, key="C17:factor:gain")
+    outg = do_prop(dict(case, H=Hg.tolist(), T=Tg.tolist(), src="pipeline*gain"), chain=False)
+    if out0 is not None and outg is not None and not fn_cov_equal(out0["Fn_cov"], outg["Fn_cov"]):
+        ctx.fail("oracle", "frequency variances change when the record is expressed in other units (gain 10^%d); frequencies are unit-free" % k,
+                 case, key="C17:prop:units")
+
+
 # ----------------------------------------------------------------------------------------------------------------
 def run(ctx):
     ctx.extra["rule"] = ("factor cases: (l<=2, reference subset or independent reference rows, br<=3, nb<=5, N a multiple of nb or not) "
                          "dyadic data, non-trivial when the data are not all zero; propagation cases: Hankel matrix (low-rank + "
                          "full-rank part, or estimated from simulated data with its own factor), 1-3 channels, any reference subset, "
-                         "br 2-5, ordmax 2-8, 1-20 factor columns, inside the property's guards (singular-value gaps >= 1e-3, "
+                         "br 2-5, ordmax 2-8, 1-20 factor columns, plus exact low-rank systems with two distinct modes of equal natural frequency / equal "
+                         "damping ratio, plus scale families (H and T times 10^k, k in [-12,12]; records times 10^k through build_hank), "
+                         "inside the property's guards (singular-value gaps >= 1e-3, "
                          "eigenvalue separation >= 0.05); non-trivial when at least one (order, pole) was judged (two finite-"
                          "difference step sizes agree to 1e-3); distinct by hash of the whole input")
     ctx.assumptions += [
@@ -492,6 +592,7 @@ def run(ctx):
         "by the property and not compared",
     ]
     fexprs, fmeta = [], []
+    fexprs2, fmeta2 = [], []
     cexprs, cmeta = [], []
     import time
     tm = ctx.extra.setdefault("phase_wall_s", {})
@@ -509,6 +610,30 @@ def run(ctx):
             chain_exprs(ctx, case, H, T, case["br"], case["ordmax"], case["dt"], out, cexprs, cmeta)
         return out
 
+    def do_scale(case, out0, ks):
+        """Scale family: the same Hankel matrix and factor in other units (H and T times 10^k).  The oracle must hold on every
+        instance and the variances must not move (frequencies are unit-free)."""
+        if out0 is None:
+            return
+        H0 = np.array(case["H"], float)
+        T0 = np.array(case["T"], float)
+        for k in ks:
+            c = 10.0 ** int(k)
+            ck = {kk: v for kk, v in case.items() if kk != "scale_ks"}
+            ck.update(H=(c * H0).tolist(), T=(c * T0).tolist(), scaled_by="1e%d" % int(k), src=str(case.get("src", "corpus")) + "*10^k")
+            ctx.hist("scale_k", int(k))
+            outk = do_prop(ck, chain=False)
+            if outk is None:
+                ctx.fail("oracle", "the guarded input scaled by 10^%d is no longer handled like the original (guards are scale-free)" % k,
+                         ck, key="C17:prop:scale-guards")
+            elif not fn_cov_equal(out0["Fn_cov"], outk["Fn_cov"]):
+                ctx.fail("oracle", "Fn_cov(cH, cT) != Fn_cov(H, T) for c = 10^%d: frequencies are unit-free, so are their variances" % k,
+                         ck, key="C17:prop:scale")
+
+    def scale_ks():
+        r = ctx.np_rng
+        return [int(r.integers(-12, -7)), int(r.integers(-7, 0)), int(r.integers(1, 13))]
+
     # ---- corpus first
     for path in sorted(glob.glob(os.path.join(VERIF, "corpus", "C17", "*.json"))):
         case = json.load(open(path))
@@ -516,13 +641,10 @@ def run(ctx):
         if case["kind"] == "factor":
             check_factor(ctx, case, case["Y"], case["Yref"], case["br"], case["nb"], fexprs, fmeta)
         elif case["kind"] == "prop":
-            do_prop(case, chain=len(case["H"]) * len(case["H"][0]) <= 64 and len(case["T"][0]) <= 3)
+            out0 = do_prop(case, chain=len(case["H"]) * len(case["H"][0]) <= 64 and len(case["T"][0]) <= 3 and not case.get("no_chain"))
+            do_scale(case, out0, case.get("scale_ks", []))
         elif case["kind"] == "pipeline":
-            Y = np.array(case["Y"], float)
-            Yr = Y[case["refs"], :]
-            H, T = ssi.build_hank(Y, Yr, case["br"], "cov_mm", calc_unc=True, nb=case["nb"])
-            check_factor(ctx, dict(case, kind="factor"), Y, Yr, case["br"], case["nb"], fexprs, fmeta)
-            do_prop(dict(case, H=np.asarray(H).tolist(), T=np.asarray(T).tolist()), chain=False)
+            check_pipeline(ctx, case, fexprs, fmeta, do_prop)
 
     lap("corpus")
     # ---- part F
@@ -538,9 +660,30 @@ def run(ctx):
     for case in propagation_cases(ctx, ctx.n(16, 160), small=True):
         do_prop(case, chain=True)
     lap("prop_small")
-    for case in propagation_cases(ctx, ctx.n(160, 2500), small=False):
-        do_prop(case, chain=False)
+    for i, case in enumerate(propagation_cases(ctx, ctx.n(160, 2500), small=False)):
+        out0 = do_prop(case, chain=False)
+        if i % 8 == 0:
+            do_scale(case, out0, scale_ks())
     lap("prop_sweep")
+    # distinct poles coinciding in one modal quantity; every one also in other units
+    for i, case in enumerate(special_cases(ctx, ctx.n(24, 240))):
+        out0 = do_prop(case, chain=False)
+        do_scale(case, out0, scale_ks()[i % 3:i % 3 + 1])
+    lap("prop_special")
+    # records in other units through build_hank
+    for i in range(ctx.n(6, 40)):
+        rr = ctx.np_rng
+        l = int(rr.integers(1, 4))
+        refs = sorted(rr.choice(l, size=int(rr.integers(1, l + 1)), replace=False).tolist())
+        br = int(rr.integers(2, 5))
+        ordmax = int(min(4, br * l, (br + 1) * len(refs)))
+        if ordmax < 2:
+            continue
+        kk = int(rr.choice([-6, -5, -4, -3, 3, 5]))
+        check_pipeline(ctx, dict(kind="pipeline", br=br, nb=int(rr.integers(2, 13)), ordmax=ordmax, dt=float(rr.choice([0.01, 0.02])), refs=refs,
+                                 gain_k=kk, Y=gen_data(rr, l, 4, int(rr.integers(300, 500))).tolist()), fexprs2, fmeta2, do_prop)
+    compare_factor(ctx, ctx.coq_eval(HEADER, fexprs2, shard=2), fmeta2)
+    lap("pipeline_units")
     compare_chain(ctx, ctx.coq_eval(HEADER, cexprs, shard=4), cmeta)
     lap("chain_coq")
 
